@@ -988,14 +988,26 @@ def rule_schema_text(m):
                                     lookup_var = it
             rt = tt.t(f.children(rets[0]['i'])[0], resolve_refs=False)
             stored = False
+            ctr = tt.t(incs[0]['c'][0])
+
+            def old_value(v):
+                """the value stored is the counter before its increment: `i++`, or `i` with the increment afterwards"""
+                v = strip_cast(v)
+                while v[0] in ('ctor', 'cast') and v[2] and (v[0] == 'cast' or len(v[2]) == 1):
+                    v = strip_cast(v[2][0] if v[0] == 'ctor' else v[2])
+                return v == ('un', '++', True, ctr)
             for n in f.nodes:
                 if n['k'] in ('BinaryOperator',) and n['op'] == '=':
                     a = tt.t(n['i'])
-                    if a[2][0] == 'idx' and a[2][2] == s and incs[0]['i'] in f.descendants(n['i']):
+                    if a[2][0] == 'idx' and a[2][2] == s and (old_value(a[3]) or (
+                            strip_cast(a[3]) == ctr and f.can_reach_forward(n['i'], incs[0]['i']) and
+                            f.region(n['i']) == f.region(incs[0]['i']))):
                         stored = True
                 if n['k'] == 'CXXMemberCallExpr' and 'callee' in n and f.unit.decl(n['callee'])['name'] in ('emplace', 'insert', 'try_emplace'):
                     a = [tt.t(x) for x in n['args']]
-                    if a and a[0] == s and incs[0]['i'] in f.descendants(n['i']):
+                    if len(a) == 2 and a[0] == s and (old_value(a[1]) or (
+                            strip_cast(a[1]) == ctr and f.can_reach_forward(n['i'], incs[0]['i']) and
+                            f.region(n['i']) == f.region(incs[0]['i']))):
                         stored = True
             returned = (rt[0] == 'mcall' and rt[1].endswith('::at') and rt[3] == (s,)) or \
                 (lookup_var is not None and any(st == lookup_var for st in subterms(rt)) and 'second' in str(rt))
@@ -1004,7 +1016,7 @@ def rule_schema_text(m):
             elif not returned:
                 why = 'the stored index of the name is not what is returned'
             elif not stored:
-                why = 'the new index is not stored under the name'
+                why = 'the value stored under a new name is not the counter before its increment (indices 0, 1, 2, ... in order of first appearance)'
         if why:
             res.fail(Finding('F-IO.SCHEMA.text', f.display(), 'VertexCountMapper', f.where(), why))
         else:
